@@ -76,9 +76,12 @@ struct DomState {
     show: Signal<bool>,
     list: Signal<Vec<u32>>,
     clicks: Signal<u32>,
+    mounted: Signal<bool>,
 }
 
 fn dom_app(s: DomState) -> View {
+    // Goes through sycamore's `#[wasm_bindgen] extern "C" { fn queueMicrotask(..) }` import.
+    on_mount(move || s.mounted.set(true));
     view! {
         div(id="app", class=s.class.get_clone()) {
             p { "count = " (s.count.get()) }
@@ -112,11 +115,18 @@ fn selftest_dom() {
             show: create_signal(true),
             list: create_signal(vec![1, 2, 3]),
             clicks: create_signal(0),
+            mounted: create_signal(false),
         };
         state = Some(s);
         sycamore::render_in_scope(move || dom_app(s), &container);
     });
     let s = state.unwrap();
+    // `on_mount` callbacks are microtasks: nothing has run yet.
+    assert!(!root.run_in(|| s.mounted.get_untracked()));
+    let ran = domutil::run_microtasks();
+    assert!(root.run_in(|| s.mounted.get_untracked()));
+    let nodes_initial = root.run_in(sycamore_reactive::verif::node_count);
+    println!("  microtasks run = {ran}; reactive nodes = {nodes_initial}");
 
     let before = domutil::serialize(&container);
     println!("initial : {before}");
@@ -165,7 +175,14 @@ fn selftest_dom() {
     let keep: Vec<u64> = before.ids.iter().copied().filter(|id| after.ids.contains(id)).collect();
     println!("  retained node ids = {keep:?}");
     println!("  console = {:?}", domutil::console_log());
+    let scope_snapshot = root.run_in(|| sycamore_reactive::verif::snapshot(use_global_scope()));
+    println!(
+        "  reactive nodes after update = {}; global scope snapshot (children, dependents, dependencies, dirty) = {:?}",
+        root.run_in(sycamore_reactive::verif::node_count),
+        scope_snapshot
+    );
     root.dispose();
+    println!("  reactive nodes after dispose = {}", root.run_in(sycamore_reactive::verif::node_count));
     println!("selftest-dom OK");
 }
 
